@@ -371,6 +371,24 @@ pub fn worker(w: &mut Worker) {
         }
     }
 
+    // calc without parentheses: ordinary precedence (* and / bind tighter than + and -)
+    for a in ["1", "2", "7", "-2", "1.5"] {
+        for c in ["2", "3", "10", "2.5"] {
+            for k in ["2", "4", "-1"] {
+                for (o1, o2) in [("+", "*"), ("-", "*"), ("*", "+"), ("*", "-"), ("+", "-"), ("-", "+"), ("-", "-")] {
+                    let (x, y, z): (f64, f64, f64) = (a.parse().unwrap(), c.parse().unwrap(), k.parse().unwrap());
+                    let ev = |p: f64, o: &str, q: f64| match o {
+                        "+" => p + q,
+                        "-" => p - q,
+                        _ => p * q,
+                    };
+                    let v = if o2 == "*" && o1 != "*" { ev(x, o1, ev(y, o2, z)) } else { ev(ev(x, o1, y), o2, z) };
+                    r.case("calc", vec![a.to_string(), o1.to_string(), c.to_string(), o2.to_string(), k.to_string()], false, close(v), true);
+                }
+            }
+        }
+    }
+
     // range: half-open integer interval
     let g = tier.pick(3i64, 4i64);
     for a in -g..=g {
